@@ -30,7 +30,10 @@ RULE = ("1..4 self-consistent simulated devices x 1..5 services of real pyatv se
         "lack an identifier next to services that have one; _airport/_sleep-proxy services mixed in; dedicated "
         "cases with one datagram per service so that every parser-table order occurs; TXT values that make a "
         "device_info extractor or service_info raise - comma in waMA, two-word flags, non-hex features, empty "
-        "and very long values - on some services of some devices, next to ordinary devices), rendered to "
+        "and very long values - on some services of some devices, next to ordinary devices; one datagram the "
+        "decoder rejects (value-less non-ASCII TXT attribute, truncated header) at every position; scans "
+        "restricted with protocol= compared with the same scan without the unrequested answers; "
+        "identifier-restricted scans below the early-exit threshold), rendered to "
         "response datagrams; all permutations of up to 5 (quick) / 6 (thorough) datagrams, sampled beyond, "
         "each with random duplication; multicast and unicast scanner; non-trivial = >=2 datagrams, a "
         "configuration is returned and the delivery order differs from the reference order or has a "
@@ -42,6 +45,9 @@ ASSUMPTIONS = [
     "lookup_model/lookup_internal_name) enter the model as parameters; the driver is given tables computed "
     "with the real functions",
     "a closed datagram transport delivers nothing more (asyncio semantics)",
+    "an exception escaping UnicastDnsSdClientProtocol.datagram_received is reported to the loop and reading goes on "
+    "(asyncio semantics): an undecodable unicast datagram is as if it never arrived; for the multicast protocol it "
+    "registers the source and nothing else, like a datagram without records",
 ]
 TRUSTED = ["harness/c12.py fakes: datagram endpoint / multicast socket creation, knocker, virtual-time loop",
            "harness/c12.py rendering of abstract records to DNS bytes (repo's DnsMessage.pack + a compressing encoder)"]
@@ -90,6 +96,8 @@ def rec_wire(r):
         return name, 33, ttl, ("srv", r[3], name_str(r[4]))
     if kind == "T":
         return name, 16, ttl, ("raw", txt_bytes(r[3]))
+    if kind == "X":      # TXT record with a value-less attribute holding a non-ASCII byte: parse_txt_dict raises
+        return name, 16, ttl, ("raw", txt_bytes(r[3]) + b"\x05\xe9tat")
     return name, r[3], ttl, ("raw", bytes([r[4] % 256]) * 4)
 
 
@@ -254,7 +262,10 @@ def run_real(mode, protoset, hosts, deliveries, identifier=None):
                 def feed(i):
                     if i >= len(mine) or transport.closed:
                         return
-                    protocol.datagram_received(mine[i], remote_addr)
+                    try:
+                        protocol.datagram_received(mine[i], remote_addr)
+                    except Exception:       # asyncio: reported to the loop's exception handler, reading goes on
+                        pass
                     loop.call_soon(feed, i + 1)
                 loop.call_soon(feed, 0)
                 return transport, protocol
@@ -316,6 +327,11 @@ class Case:
             toks = ["D,%d,%d" % (d["src"], d["tag"])]
             for r in d["recs"]:
                 toks.append(self.rec_token(r))
+            if d.get("bad"):
+                # a datagram the decoder rejects.  Multicast: the source is registered (`setdefault`) and
+                # nothing else happens - exactly what a datagram without records does.  Unicast: the
+                # protocol raises before counting it (asyncio logs and goes on) - as if it never arrived.
+                toks = toks[:1] if self.mode == "m" else []
             self.tokens.append(toks)
             if self.mode == "m":
                 msg_id, questions = d["tag"], []
@@ -327,12 +343,14 @@ class Case:
                 self.wire.append(pack_compressed(msg_id, questions, d["recs"]))
             else:
                 self.wire.append(pack_repo(dns, msg_id, questions, d["recs"]))
+            if d.get("bad") == "cut":
+                self.wire[-1] = self.wire[-1][:7]          # not even a complete DNS header
         # tables: handler outcome for every (type, instance) x payload seen with that name
         svc_txts = {}
         for d in desc["dgrams"]:
             for r in d["recs"]:
                 n = r[1]
-                if n[0] in ("svc", "typ"):
+                if n[0] in ("svc", "typ") and not d.get("bad"):
                     key = (n[2], n[1]) if n[0] == "svc" else (n[1], None)
                     svc_txts.setdefault(key, {0})
                     if r[0] == "T":
@@ -416,6 +434,8 @@ class Case:
         return "2,%d,0" % n[1]
 
     def rec_token(self, r):
+        if r[0] == "X":
+            return "T,%s,%d,%d" % (self.name_nums(r[1]), r[2], 0)     # only ever inside a `bad` datagram (dropped)
         head = "%s,%s,%d" % (r[0], self.name_nums(r[1]), r[2])
         if r[0] == "A":
             return head + ",%d,%d" % (r[3], 1 if r[4] else 0)
@@ -828,6 +848,187 @@ def gen_case_mixed(rng, mode, nsvc):
             "present": [d["addr"] for d in devs if not d["expect_absent"]], "consistent": True}
 
 
+PROTO_TYPES = {1: [T_TOUCH, T_ATV2, T_HSCP], 2: [T_MRP], 3: [T_AIRPLAY], 4: [T_COMPANION], 5: [T_RAOP, T_AIRPORT]}
+
+
+def layout(rng, mode, devs, protoset):
+    """One datagram per service (multicast) / the services spread over the answers to the nq queries (unicast)."""
+    from pyatv.core import mdns
+    from pyatv.support import dns
+    dgrams = []
+    if mode == "m":
+        for d in devs:
+            for s in d["services"]:
+                dgrams.append({"src": d["addr"], "tag": len(dgrams), "recs": svc_records(d, s)})
+        return dgrams, []
+    nq = len(mdns.create_service_queries(make_scanner(protoset).services, dns.QueryType.PTR))
+    for d in devs:
+        buckets = [[] for _ in range(nq)]
+        where = list(range(nq))
+        rng.shuffle(where)
+        for k, s in enumerate(d["services"]):
+            b = buckets[where[k % nq]]
+            b += [r for r in svc_records(d, s) if r not in b]
+        for q in range(nq):
+            dgrams.append({"src": d["addr"], "tag": q, "recs": buckets[q]})
+    return dgrams, [d["addr"] for d in devs]
+
+
+def gen_case_filtered(rng, mode, i):
+    """scan(protocol=...): devices announce services of requested AND of filtered-out protocols (those
+    carry model / deviceid / properties of their own)."""
+    protoset = [[2], [4], [3], [5], [1], [2, 4], [3, 5]][i % 7]
+    wanted = [t for p in protoset for t in PROTO_TYPES[p]]
+    devs = []
+    for k in range(1 + i % 2):
+        for _ in range(50):
+            d = gen_device(rng, k, allow_noid=False, mixed=False, nsvc=rng.randint(3, 4) if mode == "m" and k == 0 else 2,
+                           hostile=False)
+            types = [s["type"] for s in d["services"]]
+            if any(t in wanted for t in types) and any(t not in wanted and t in (T_AIRPLAY, T_RAOP, T_COMPANION, T_HSCP)
+                                                        for t in types):
+                break
+        d["sleeping"] = False
+        devs.append(d)
+    dgrams, hosts = layout(rng, mode, devs, protoset)
+    return {"mode": mode, "protoset": protoset, "hosts": hosts, "enc": rng.choice(["r", "c"]), "dgrams": dgrams,
+            "absent": [], "consistent": True}
+
+
+def gen_case_undecodable(rng, mode, i):
+    """Self-consistent devices one of whose datagrams pyatv cannot decode (value-less non-ASCII TXT attribute,
+    or a truncated datagram); it may arrive at any position, also repeated."""
+    devs = []
+    for k in range(1 + i % 2):
+        d = gen_device(rng, k, allow_noid=False, mixed=False, nsvc=rng.randint(2, 3) if k == 0 else rng.randint(1, 2),
+                       hostile=False)
+        d["sleeping"] = False
+        devs.append(d)
+    protoset = None if mode == "m" else [[3, 5], [1], None][i % 3]
+    dgrams, hosts = layout(rng, mode, devs, protoset)
+    how = "cut" if i % 3 == 2 else "txt"
+    if mode == "m":
+        mine = [d for d in dgrams if d["src"] == devs[0]["addr"]]
+        victim = rng.choice(mine)
+        victim["bad"] = how
+        if how == "txt":
+            victim["recs"] = [(["X"] + r[1:3] + [r[3]]) if r[0] == "T" and r[1][0] == "svc" and r[1][2] != T_DEVINFO else r
+                              for r in victim["recs"]]
+            if not any(r[0] == "X" for r in victim["recs"]):
+                victim["recs"].append(["X", victim["recs"][1][1], 120, []])
+    else:
+        # the host answers every query properly and sends one more datagram that cannot be decoded
+        src = devs[0]["addr"]
+        nq = max(d["tag"] for d in dgrams) + 1
+        s0 = devs[0]["services"][0]
+        recs = svc_records(devs[0], s0)
+        recs = [(["X"] + r[1:3] + [r[3]]) if r[0] == "T" and r[1][2] != T_DEVINFO else r for r in recs]
+        if not any(r[0] == "X" for r in recs):
+            recs.append(["X", ["svc", s0["inst"], s0["type"]], 120, []])
+        dgrams.append({"src": src, "tag": nq, "recs": recs, "bad": how})
+    return {"mode": mode, "protoset": protoset, "hosts": hosts, "enc": rng.choice(["r", "c"]), "dgrams": dgrams,
+            "absent": [], "consistent": True}
+
+
+def strip_unrequested(desc):
+    """The same scan in which the answers for service types that were not requested never arrive.
+    Requested = the service types `pyatv.scan` is specified to register for the chosen protocols.
+    Returns None when an answer mixes requested and unrequested services in a multicast datagram
+    (the multicast protocol then drops the whole datagram; there is no 'same scan without')."""
+    req = {TYPES.index(t) for t in make_scanner(desc.get("protoset")).services}
+
+    def rtype(r):
+        n = r[1]
+        if n[0] == "svc":
+            return n[2]
+        if n[0] == "typ":
+            return n[1]
+        return None
+
+    out = json.loads(json.dumps(desc))
+    changed = False
+    if desc["mode"] == "m":
+        keep = []
+        for d in out["dgrams"]:
+            types = {rtype(r) for r in d["recs"]} - {None, T_DEVINFO}
+            if d.get("bad") or not types or types <= req:
+                keep.append(d)
+            elif types & req:
+                return None
+            else:
+                changed = True
+        out["dgrams"] = keep
+    else:
+        for d in out["dgrams"]:
+            recs = [r for r in d["recs"] if rtype(r) is None or rtype(r) in req]
+            changed = changed or len(recs) != len(d["recs"])
+            d["recs"] = recs
+    return out if changed else None
+
+
+def reference_check(ctx, rng, desc, orders):
+    """Answers for service types that were not requested are ignored: every delivery order of the full scan
+    must give what the scan gives when those answers never arrive."""
+    stripped = strip_unrequested(desc)
+    if stripped is None:
+        return
+    ref_case = Case(stripped)
+    ref, _ = ref_case.real(list(range(len(stripped["dgrams"]))))
+    want = oracle_snapshot(ref)
+    full = Case(desc)
+    ctx.note("reference-check")
+    for o in orders:
+        res, _ = full.real(o)
+        ctx.case(["reference", desc["mode"], desc["dgrams"], desc.get("protoset"), o], True)
+        got = oracle_snapshot(res)
+        if got != want:
+            ctx.fail("%s:unrequested-type-not-ignored" % desc["mode"], {"desc": desc, "without": stripped, "order": o},
+                     repr(got)[:600], repr(want)[:600],
+                     "answers for a service type that was not requested changed the scan result")
+            break
+
+
+def identifier_cases(ctx, rng):
+    """scan(identifier=...), multicast, inside what the known finding leaves: every source sends fewer
+    datagrams than there are queries and nothing is repeated, so the early exit cannot trigger.  Not modelled;
+    direct oracle only: the same configurations for every arrival order."""
+    for i in range(ctx.scale(3, 10)):
+        r = rng.fork("ident", i)
+        devs = []
+        for k in range(2 + i % 2):
+            d = gen_device(r, k, allow_noid=False, mixed=(k == 0), nsvc=r.randint(2, 3), hostile=False)
+            d["sleeping"] = False
+            d["services"] = d["services"][:3]
+            devs.append(d)
+        dgrams, _ = layout(r, "m", devs, None)
+        desc = {"mode": "m", "protoset": None, "hosts": [], "enc": r.choice(["r", "c"]), "dgrams": dgrams,
+                "absent": [], "consistent": True}
+        c = Case(desc)
+        if c.nq <= 3:
+            continue
+        base = list(range(len(dgrams)))
+        plain = run_real("m", None, [], [(dgrams[j]["src"], c.wire[j]) for j in base])
+        ids = sorted({x for cfg in plain["configs"] for x in cfg.all_identifiers if x})
+        if not ids:
+            continue
+        ident = r.choice(ids)
+        desc["identifier"] = ident
+        orders = orders_for(r, len(base), 4, ctx.scale(10, 30), 0)
+        ref = None
+        for o in orders:
+            res = run_real("m", None, [], [(dgrams[j]["src"], c.wire[j]) for j in o], identifier=ident)
+            snap = oracle_snapshot(res)
+            ctx.note("identifier-scan")
+            ctx.case(["identifier", dgrams, ident, o], bool(res["configs"]) and o != base)
+            if ref is None:
+                ref = snap
+            elif snap != ref:
+                ctx.fail("m:identifier-scan-order-changes-result", {"desc": desc, "order": o, "reference_order": orders[0]},
+                         repr(snap)[:600], repr(ref)[:600],
+                         "scan(identifier=...) below the early-exit threshold: snapshot differs between arrival orders")
+                break
+
+
 def gen_case_inconsistent(rng, mode):
     """Correspondence only: contradictory records (exercise first-wins / last-wins / merge order)."""
     desc = gen_case_m(rng, rng.randint(1, 2), 4) if mode == "m" else gen_case_u(rng, rng.randint(1, 2))
@@ -1038,6 +1239,8 @@ def run(ctx, only=None):
         n = len(desc["dgrams"])
         evaluate(ctx, desc, orders_for(r, n, full, samples, 2), "consistent")
         unrequested_check(ctx, r, desc)
+        if protoset:
+            reference_check(ctx, r, desc, [list(range(n)), list(range(n))[::-1]])
     # 2. unicast, one response per query
     for i in range(ncases):
         r = rng.fork("u", i)
@@ -1047,6 +1250,8 @@ def run(ctx, only=None):
         n = len(desc["dgrams"])
         evaluate(ctx, desc, orders_for(r, n, full, samples, 2), "consistent")
         unrequested_check(ctx, r, desc)
+        if protoset:
+            reference_check(ctx, r, desc, [list(range(n)), list(range(n))[::-1]])
     # 2b. devices mixing services with and without identifier, one datagram per service: every order of
     #     the parser table / of the found device's service list
     for i in range(ctx.scale(6, 24)):
@@ -1061,6 +1266,22 @@ def run(ctx, only=None):
         desc = gen_case_hostile(r, "mmu"[i % 3], i)
         n = len(desc["dgrams"])
         evaluate(ctx, desc, orders_for(r, n, full, samples * 2, 1), "hostile-values")
+    # 2d. scans restricted by protocol: invariance, and the scan without the unrequested answers as reference
+    for i in range(ctx.scale(7, 21)):
+        r = rng.fork("filtered", i)
+        desc = gen_case_filtered(r, "mmu"[i % 3], i)
+        n = len(desc["dgrams"])
+        orders = orders_for(r, n, min(full, 4), 10, 1)
+        evaluate(ctx, desc, orders, "protocol-filter")
+        reference_check(ctx, r, desc, orders[:3] + orders[-2:])
+    # 2e. one datagram the decoder rejects, at every position
+    for i in range(ctx.scale(6, 18)):
+        r = rng.fork("undecodable", i)
+        desc = gen_case_undecodable(r, "mmu"[i % 3], i)
+        n = len(desc["dgrams"])
+        evaluate(ctx, desc, orders_for(r, n, min(full, 5), samples, 1), "undecodable-datagram")
+    # 2f. identifier-restricted scans below the early-exit threshold (oracle only)
+    identifier_cases(ctx, rng)
     # 3. contradictory data: correspondence only
     for i in range(ctx.scale(10, 40)):
         r = rng.fork("x", i)
